@@ -43,7 +43,7 @@ RULE = ('one PRNG; a case is a random mesh (ring with chords / grid / random con
         'different partners, vectors repeated 2-7 times with permuted ids; ~15 % are one vector of 2-3 requests on a '
         'triangle / square (+ diagonal) / 5-ring where each request has its own STRICT, LOOSE or mixed include list '
         '(a STRICT detour colliding with the partner\'s only route next to a partner missing only a LOOSE hop), both '
-        'orders inside the vector; ~3 % long rings (12-14 ROADMs, 2-5 spans per link) whose only disjoint alternative is '
+        'orders inside the vector; ~6 % long rings (12-14 ROADMs, 2-5 spans per link) whose only disjoint alternative is '
         '75-85 elements long (the 80-hop cut-off from both sides); 15 % of the random meshes have a PARALLEL link (links '
         'are identified by OMS); link-only / node-only disjointness flags and vectors of one request now and then. Non-trivial = some vector has a '
         'request with at least two candidate paths.')
@@ -240,6 +240,9 @@ def gen_long_ring(rng, tier):
             k = rng.choice([2, 3, 3])
         spans = [80] * k
         links.append([min(a, b), max(a, b), list(spans), list(spans), rng.choice(['plain', 'plain', 'fused'])])
+    if rng.random() < 0.5:
+        # one line of the long way ends in a Fused: the long way becomes 76 ... 86 elements (even lengths, 80 included)
+        links[rng.randrange(d, n)][4] = 'fusedend'
     mesh = {'n': n, 'links': links}
     s, t = (0, d) if rng.random() < 0.7 else (d, 0)
     reqs = [{'id': 0, 'src': ['T', s], 'dst': ['T', t], 'inc': [], 'bidir': False, 'mode': 'mode 1'},
@@ -262,7 +265,7 @@ def gen(rng, tier, widen=False):
 
 def gen0(rng, tier, widen=False):
     r = rng.random()
-    if r > 0.97:
+    if r > 0.94:
         return gen_long_ring(rng, tier)
     if r > (0.75 if widen else 0.85):
         return gen_strict_loose(rng, tier)
